@@ -8,8 +8,9 @@ CONSTANTS
   CPUs = {0, 1, 2}
   LimitVals = {1, 2, 3, 99}
   Kinds = {"cpuset", "limit"}
-  Algos = {"leveled", "suppress"}
+  Algos = {"leveled", "suppress", "recover"}
   CacheMode = "subsets"
+  ExternalSteps = FALSE
 INVARIANT V
 INVARIANT TNAtEnd
 INVARIANT CacheAgrees
